@@ -856,6 +856,7 @@ func execC14(e *Env, pp any) {
 		}
 		return 0
 	}
+	needsTime := false // the current batch has a call that only ends when (simulated) time passes
 	mk := func(id int) *CallSpec {
 		c := &CallSpec{ID: id, MsgLen: 10}
 		oc := draw()
@@ -895,6 +896,11 @@ func execC14(e *Env, pp any) {
 				prog = append(prog, Op{K: 'x'}, Op{K: 'R'})
 				c.CProg = prog
 				c.HProg = append(c.HProg, Op{K: 'w'})
+				if g.IntN(2) == 0 {
+					// the call also carries a deadline far beyond the run: the cancellation,
+					// not the deadline, must release what the server holds for it
+					c.Timeout = time.Duration(1+g.IntN(100)) * time.Hour
+				}
 			} else {
 				// goat sends nothing to the server when a unary caller gives up,
 				// so the handler must finish by itself: it answers when scheduled
@@ -903,6 +909,7 @@ func execC14(e *Env, pp any) {
 			}
 			e.Note("outcome.cancel")
 		case 3:
+			needsTime = true
 			c.Timeout = time.Duration(1+g.IntN(50)) * time.Millisecond
 			c.HProg = append(c.HProg, Op{K: 'w'})
 			if c.Kind != KUnary && !readsAll(c.CProg) {
@@ -1010,6 +1017,7 @@ func execC14(e *Env, pp any) {
 			batch = p.N - done
 		}
 		var recs []*CallRec
+		needsTime = false
 		for i := 0; i < batch; i++ {
 			c := mk(next)
 			r := sim.Add(c)
@@ -1037,9 +1045,10 @@ func execC14(e *Env, pp any) {
 			}
 		}
 		// unary calls marked for cancellation: cancel once their handler runs
-		e.NoAutoAdvance = false
+		e.NoAutoAdvance = !needsTime
 		r0 := e.Drive(nil)
 		if r0 == Crashed || r0 == StepLimit {
+			e.NoAutoAdvance = false
 			return
 		}
 		for _, r := range recs {
@@ -1047,6 +1056,28 @@ func execC14(e *Env, pp any) {
 				r.Cancel()
 			}
 		}
+		if !needsTime {
+			// nothing in this batch needs time to pass: everything is released at the
+			// first quiescent point, before any timer (a far deadline, say) has fired
+			r1 := e.Drive(nil)
+			e.NoAutoAdvance = false
+			if r1 == Crashed || r1 == StepLimit {
+				return
+			}
+			allBack := true
+			for _, r := range recs {
+				if !r.Returned {
+					allBack = false
+				}
+			}
+			if allBack {
+				e.Note("sample.before-any-timer")
+				if !sample(fmt.Sprintf("after %d RPCs, before any timer fired", done+batch)) {
+					return
+				}
+			}
+		}
+		e.NoAutoAdvance = false
 		if rr := e.Settle(); rr != Quiescent {
 			return
 		}
